@@ -294,7 +294,14 @@ def units(tier):
             for ei in ((None, "x"), ("z", "*")):
                 us.append(Unit(f"C07/aarch64/_is_AArch64_mem_type/entry-base={eb}/offset={eo}/index={'|'.join(map(str, ei))}", a64_unit_mem(eb, (eo,), ei), "P",
                                [(HW, "MachineModel._is_AArch64_mem_type")], timeout=1800))
+    from .c03 import roles_unit
+    from .c08 import compose_unit
+    ISAF = "osaca/semantics/isa_semantics.py"
     us += [
+        Unit("C07/suffix-fall-backs/assign_src_dst/x86", roles_unit("x86"), "Pb", [(ISAF, "ISASemantics.assign_src_dst")], timeout=1500),
+        Unit("C07/suffix-fall-backs/assign_src_dst/aarch64", roles_unit("aarch64"), "Pb", [(ISAF, "ISASemantics.assign_src_dst")], timeout=1500),
+        Unit("C07/suffix-fall-backs/assign_tp_lt/x86", compose_unit("x86"), "Pb", [("osaca/semantics/arch_semantics.py", "ArchSemantics.assign_tp_lt")], timeout=1500),
+        Unit("C07/suffix-fall-backs/assign_tp_lt/aarch64", compose_unit("aarch64"), "Pb", [("osaca/semantics/arch_semantics.py", "ArchSemantics.assign_tp_lt")], timeout=1500),
         Unit("C07/_match_operands", match_operands_unit, "P", [(HW, "MachineModel._match_operands")]),
         Unit("C07/get_instruction", get_instruction_unit, "Pb", [(HW, "MachineModel.get_instruction")]),
         bounded_unit("C07/shipped-entries-self-lookup", "c07_entries", [(HW, "MachineModel.get_instruction"), (HW, "MachineModel.__init__"), (HW, "MachineModel.operand_to_class")], timeout=2400),
